@@ -77,7 +77,9 @@ FIXED = {
     "conv": {
         "spec": {"classes": _CL, "hooks": [], "deps": [], "methods": {
             "m0": _m(["o"], ["leaf"]), "m1": _m(["c", "K0"], ["next_other", ["n", "K2", 5, []]]),
-            "m2": _m(["c", "K1"], ["next"]), "m3": _m(["c", "K2"], ["next"]),
+            "m2": _m(["c", "K1"], ["next"]),
+            # ... and one that restarts the dispatch on a type it is not a candidate for
+            "m3": _m(["c", "K2"], ["next_other", ["n", "K1", 6, []]]),
         }, "meta": _META1},
         "regs": [["m0"], ["m1"], ["m2"], ["m3"]],
         "calls": [{"args": [["n", "K2", 0, []]]}, {"args": [["n", "K1", 0, []]]},
@@ -110,6 +112,7 @@ FIXED_SHAPES = {
     "S4_miss_diff": (2, 0, 1),
     "S5_chain_vs_warm": (1, 0, 1),
     "S2b_first_diff": (None, 0, 2),
+    "S2c_first_diff": (None, 1, 2),
     "S4b_miss_diff": (1, 0, 2),
     # racing a call whose resolution ends in the ambiguity error (chain world only)
     "S6_ambiguous_same": (2, 3, 3),
